@@ -39,6 +39,14 @@ type Config struct {
 	TickSizes  []time.Duration // tick durations to choose from
 	KeepTape   bool            // keep the full event log in memory (replay files, debugging)
 	DialRefuseProb float64     // probability that a pending dial is refused instead of accepted (fault configs)
+	// TickEpsilon > 0 lengthens every sleep of the scheduler by that much (use 1 ns). Timers of the code under test
+	// are armed at scheduler instants with durations that are multiples of a microsecond; without the offset a
+	// scheduler tick regularly ends at exactly the instant such a timer is due (a 100 ms retry delay armed in the step
+	// of a fault against ten idle ticks of 10 ms), and whether that timer's goroutine has run when synctest.Wait
+	// returns to the scheduler is the Go runtime's choice. With the offset the scheduler's instants are never a
+	// timer's instant (fewer than 1000 ticks per run), so every timer due before a tick's end has fired and its
+	// goroutine has run to its next durable block before the scheduler looks.
+	TickEpsilon time.Duration
 	// S2CFrameWise makes every s2c delivery end at the latest at the end of the first undelivered frame (reply or
 	// push), so that a client never receives two frames in one step. Scenarios whose client code reacts to pushes on
 	// several goroutines (invalidation-driven wake-ups) need it for determinism. Off by default.
@@ -222,6 +230,10 @@ type Sim struct {
 	UserEvents func(s *Sim) []Event
 	// OnStep is called after every event, at quiescence (invariant checks).
 	OnStep func(s *Sim) error
+	// Settle, when set, is called at quiescence before the returns of the last step are collected. It may let fake
+	// time pass (time.Sleep + synctest.Wait) so that work which free-running goroutines finish "a little later" in
+	// some processes and at once in others belongs to the same step in all of them.
+	Settle func(s *Sim)
 	// OnAccept lets the scenario veto or decorate accepted connections.
 	OnAccept func(s *Sim, l *Link)
 	// DialPolicy decides about a pending dial: "accept", "refuse", "hang".
@@ -958,6 +970,9 @@ type RunResult struct {
 func (s *Sim) Run(done func() bool) RunResult {
 	for {
 		synctest.Wait()
+		if s.Settle != nil {
+			s.Settle(s)
+		}
 		s.collect()
 		s.logState()
 		s.W.Step = s.Step
@@ -986,7 +1001,7 @@ func (s *Sim) Run(done func() bool) RunResult {
 			}
 			d := s.idleTick()
 			s.logf("step %d idle-tick %v", s.Step, d)
-			time.Sleep(d)
+			time.Sleep(d + s.Cfg.TickEpsilon)
 			s.idleFor += d
 			s.W.Tick()
 			s.Stats["ticks"]++
@@ -1008,7 +1023,7 @@ func (s *Sim) Run(done func() bool) RunResult {
 		if chosen < 0 {
 			d := s.Cfg.TickSizes[s.R.IntN(len(s.Cfg.TickSizes))]
 			s.logf("step %d tick %v", s.Step, d)
-			time.Sleep(d)
+			time.Sleep(d + s.Cfg.TickEpsilon)
 			s.W.Tick()
 			s.Stats["ticks"]++
 			continue
